@@ -16,7 +16,7 @@ class St:  # a symbolic program+ghost state
     def ctx(s, kk): return If(kk == s.sp, s.node, Select(s.STK, kk))
     def ext(s, r): return Select(s.ABS, r) + Select(s.VL, r)
 root0, hit, a, b = Ints('root0 hit a b')
-def J(s, a_):   # loop-head invariant, parameterised by the start a_ of the next hit (sortedness)
+def J(s, a_, b_):   # loop-head invariant, parameterised by (start, end) of the next hit (sort key (start, -end))
     c = s.ctx
     return {
      'J0': ForAll([k, j2], Implies(And(0 <= k, k < j2, j2 <= s.sp), c(k) != c(j2))),   # open contexts are pairwise distinct objects
@@ -25,11 +25,12 @@ def J(s, a_):   # loop-head invariant, parameterised by the start a_ of the next
      'J3': ForAll([k], Implies(And(0 <= k, k < s.sp), And(Select(s.S, c(k+1)) == Select(s.ABS, c(k+1)) - Select(s.ABS, c(k)),
                                                        Select(s.LE, c(k)) == s.ext(c(k+1)), Select(s.LS, c(k)) == Select(s.ABS, c(k+1))))),
      'J4': ForAll([k], Implies(And(0 <= k, k <= s.sp), And(Select(s.ABS, c(k)) <= a_, Select(s.LS, c(k)) <= a_))),
+     'J4x': ForAll([k], Implies(And(1 <= k, k <= s.sp), Or(Select(s.ABS, c(k)) < a_, And(Select(s.ABS, c(k)) == a_, s.ext(c(k)) >= b_)))),  # pushed contexts precede the hit in sort order
      'J5': And(Select(s.LE, s.node) <= s.D, (s.dend + s.dbase == s.D) if BUG else (s.dend == s.D), s.dbase >= 0),
     }
 s0 = St('0')
 fresh = ForAll([k], Implies(And(0 <= k, k <= s0.sp), s0.ctx(k) != hit))
-pre = list(J(s0, a).values()) + [fresh, 0 <= a, a <= b, b <= s0.ext(root0), Select(s0.VL, root0) >= 0]
+pre = list(J(s0, a, b).values()) + [fresh, 0 <= a, a <= b, b <= s0.ext(root0), Select(s0.VL, root0) >= 0]
 results = []
 def prove(name, hyps, goal, expect=unsat):
     s = Solver(); s.set('timeout', 20000); s.add(*hyps); s.add(Not(goal))
@@ -58,7 +59,8 @@ prove('E3/sibling start non-decreasing', post_w, a >= Select(s0.LS, s1.node))
 cex = prove('E3/sibling end strictly increasing', post_w, b > Select(s0.LE, s1.node))
 prove('C06/shadowed iff b <= D', pre, shadow == (b <= s0.D))
 # ---- re-establish J for the next hit (start a2 >= a, fresh hit2) ----
-a2, hit2 = Ints('a2 hit2')
+a2, b2, hit2 = Ints('a2 b2 hit2')
+next_sorted = Or(a2 > a, And(a2 == a, b2 <= b))   # (a,-b) <= (a2,-b2)
 def after(branch):
     s = St('N')
     common = [s.S == Store(s0.S, hit, rs), s.E == Store(s0.E, hit, re_), s.LS == Store(s0.LS, s1.node, a)]
@@ -73,16 +75,20 @@ def after(branch):
                  Select(s0.LS, hit) <= a]   # fresh node: LS ghost initialised to -1 (<= a)
 for br in ('decoded', 'context'):
     sN, eqs = after(br)
-    hyps = post_w + eqs + [a2 >= a, b > Select(s0.LE, s1.node)]   # E3 already established on this path (fixed code) / assumed (bug)
-    for cname, g in J(sN, a2).items():
+    hyps = post_w + eqs + [next_sorted, b > Select(s0.LE, s1.node)]   # E3 already established on this path (fixed code) / assumed (bug)
+    for cname, g in J(sN, a2, b2).items():
         c2 = prove(f'J-preserved/{br}/{cname}', hyps, g)
         if c2 is not None and cname == 'J5':
             m = c2.model(); ev = lambda t: m.eval(t, model_completion=True)
             print('   counterexample: a,b =', ev(a), ev(b), 'sp0 =', ev(s0.sp), 'sp1 =', ev(s1.sp), 'offset1 =', ev(s1.offset), "dend' =", ev(sN.dend), "D' =", ev(sN.D))
 sN, eqs = after('decoded')
 # shadowed / restates paths leave the state unchanged: J(s0,a) => J(s0,a2)
-for cname, g in J(s0, a2).items():
-    prove(f'J-preserved/continue/{cname}', pre + [a2 >= a], g)
+for cname, g in J(s0, a2, b2).items():
+    prove(f'J-preserved/shadowed/{cname}', pre + [next_sorted], g)
+# RESTATES path: taken after the while loop when hit.start == 0 (rs == 0) and value/type equal the context's; the sort key alone excludes a pop before it
+prove('restates/no-pop-happened', post_w + [rs == 0], s1.sp == s0.sp)
+for cname, g in J(s0, a2, b2).items():
+    prove(f'J-preserved/restates/{cname}', post_w + [rs == 0, s1.sp == s0.sp, next_sorted], g)
 bad = [n for n, r in results if r != unsat]
 print('\nNOT DISCHARGED:', bad if bad else 'none', '| total', len(results))
 if cex is not None:
